@@ -167,6 +167,9 @@ def run(ctx, cases, cov, violations, known_hits, notes):
     out_json = os.path.join(work, "lockgraph.json")
     rc, out = vf.sh([exe, "-repo", repo, "-config", CONFIG, "-v", out_v, "-json", out_json], env=vf.GOENV, timeout=900)
     cov["translator_s"] = round(time.time() - t0, 2)
+    cov["trusted_base"] = [x for x in cov["trusted_base"] if "extraction" not in x and "OCaml" not in x and "lalprobe" not in x] + [
+        "translator /verif/harness/cmd/lockgraph (go/packages, go/ssa, VTA call graph: golang.org/x/tools v0.29.0) and its reviewed configuration c20_config.json",
+        "python driver /verif/gen/c20.py (independent cycle search, textual lock-site scan, lock-trace comparison)"]
     if rc != 0 or not os.path.exists(out_json):
         violation("build", "the translator failed on the working tree (does lal still type-check?)",
                   dict(broken="translator run", log=out[-4000:]), True)
@@ -306,12 +309,133 @@ def run(ctx, cases, cov, violations, known_hits, notes):
             notes.append("the regenerated lock graph differs from the committed baseline coq/theories/Gen/LockGraph.v "
                          "(%d new, %d removed edges); the theorems were re-checked on the regenerated one" % (len(added), len(removed)))
 
-    # 10. thorough tier: race-detector soak = failing-schedule search, not a proof
+    # 10. dynamic cross-check of the translator: every nested acquisition that really happens must be an edge
+    lock_trace(ctx, cov, violation, notes, g, work)
+
+    # 11. thorough tier: race-detector soak = failing-schedule search, not a proof
     if ctx["tier"] == "thorough":
         ctx["known_hits"] = known_hits
         race_soak(ctx, cov, violation, notes)
     else:
         cov["race_soak"] = "not run in the quick tier"
+
+
+DECL_RE = re.compile(r"\bsync\.(Mutex)\b")
+
+
+def make_overlay(repo, work, excl):
+    """build overlay: lal's `sync.Mutex` declarations become veriftrace.Mutex (same line numbers)"""
+    ov = os.path.join(work, "overlay")
+    os.makedirs(ov, exist_ok=True)
+    replace = {}
+    n = 0
+    for d, _, fs in os.walk(os.path.join(repo, "pkg")):
+        rel_pkg = os.path.relpath(d, repo)
+        if any(rel_pkg == x or rel_pkg.startswith(x + "/") for x in excl):
+            continue
+        for f in sorted(fs):
+            if not f.endswith(".go") or f.endswith("_test.go"):
+                continue
+            p = os.path.join(d, f)
+            txt = open(p, encoding="utf-8", errors="replace").read()
+            if not DECL_RE.search(txt) or not re.search(r'^[ \t]*"sync"[ \t]*$', txt, re.M):
+                continue
+            new = DECL_RE.sub("veriftrace.Mutex", txt)
+            imp = '"github.com/q191201771/lal/pkg/veriftrace"'
+            body_wo_import = re.sub(r'^[ \t]*"sync"[ \t]*$', "", new, flags=re.M)
+            if re.search(r"\bsync\.", body_wo_import):
+                new = re.sub(r'^([ \t]*)"sync"[ \t]*$', r'\1"sync"; ' + imp, new, count=1, flags=re.M)
+            else:
+                new = re.sub(r'^([ \t]*)"sync"[ \t]*$', r"\1" + imp, new, count=1, flags=re.M)
+            if new.count("\n") != txt.count("\n"):
+                raise RuntimeError("overlay changed the line count of " + p)
+            n += 1
+            dst = os.path.join(ov, "f%d_%s" % (n, f))
+            open(dst, "w").write(new)
+            replace[p] = dst
+    vt = os.path.join(ov, "veriftrace.go")
+    shutil.copy(os.path.join(ROOT, "harness", "cmd", "lalrace", "overlay", "veriftrace.go.txt"), vt)
+    replace[os.path.join(repo, "pkg", "veriftrace", "veriftrace.go")] = vt
+    path = os.path.join(ov, "overlay.json")
+    json.dump(dict(Replace=replace), open(path, "w"), indent=1)
+    return path, n
+
+
+def lock_trace(ctx, cov, violation, notes, g, work):
+    """run the churn scenario with traced mutexes: dynamic edges must be a subset of the static graph"""
+    secs = int(os.environ.get("C20_TRACE_SECONDS") or (20 if ctx["tier"] == "thorough" else 4))
+    repo = vf.REPO
+    cfg = json.load(open(CONFIG))
+    excl = [p.split("github.com/q191201771/lal/", 1)[1] for p in cfg.get("exclude_packages", []) if "github.com/q191201771/lal/" in p]
+    t0 = time.time()
+    try:
+        ov, nfiles = make_overlay(repo, work, excl)
+    except Exception as e:  # the overlay is best effort: say so, do not fail the check
+        cov["lock_trace"] = "skipped: overlay generation failed (%s)" % e
+        notes.append(cov["lock_trace"])
+        return
+    with vf.Lock():
+        ok, out, exe = vf.build_tool("lalrace", extra_args=["-tags", "verif locktrace", "-overlay", ov], suffix="-trace")
+    if not ok:
+        cov["lock_trace"] = "skipped: traced build failed (%s)" % out.strip()[-300:]
+        notes.append("lock trace skipped: traced build of cmd/lalrace failed")
+        return
+    out_file = os.path.join(work, "locktrace.txt")
+    env = dict(os.environ, LALRACE_SECONDS=str(secs), LALRACE_SEED=str(ctx["rng"].randrange(1 << 30)), LALRACE_TRACE_OUT=out_file)
+    try:
+        p = subprocess.run([exe], env=env, stdout=subprocess.PIPE, stderr=subprocess.PIPE, timeout=secs + 120)
+        so, err, rc = p.stdout.decode(errors="replace"), p.stderr.decode(errors="replace"), p.returncode
+    except subprocess.TimeoutExpired as e:
+        so, err, rc = (e.stdout or b"").decode(errors="replace"), (e.stderr or b"").decode(errors="replace"), "timeout"
+    if rc != 0 or not os.path.exists(out_file):
+        if "STUCK" in so or rc == "timeout":
+            violation("race", "the churn scenario got stuck (possible deadlock): %s" % so.strip()[-200:],
+                      dict(oracle=False, broken=None, why="watchdog: scenario stuck", stdout=so[-3000:], stderr=err[-3000:]))
+        else:
+            kind = vf.crash_summary(err, rc if isinstance(rc, int) else None)
+            violation("race", "the server process died during the traced churn scenario: %s" % kind,
+                      dict(oracle=False, broken=None, why="process abort", crash=kind, stderr=err[-6000:]))
+        return
+    site_class = dict((s["pos"], s["class"]) for s in g["lock_sites"] if s["op"] in ("Lock", "RLock"))
+    static = set((e["from_name"], e["to_name"]) for e in g["edges"])
+    dyn = {}
+    unknown_sites = set()
+    foreign = 0
+    nsites = 0
+    for line in open(out_file):
+        t = line.split()
+        if t[0] == "site":
+            nsites += 1
+            if os.path.relpath(t[1].rsplit(":", 1)[0], repo) + ":" + t[1].rsplit(":", 1)[1] not in site_class:
+                unknown_sites.add(t[1])
+        elif t[0] == "edge":
+            a, b = [os.path.relpath(x.rsplit(":", 1)[0], repo) + ":" + x.rsplit(":", 1)[1] for x in (t[1], t[2])]
+            ca, cb = site_class.get(a), site_class.get(b)
+            if ca is None or cb is None:
+                continue
+            dyn.setdefault((ca, cb), (a, b, int(t[3])))
+        elif t[0] == "foreign_unlock":
+            foreign = int(t[1])
+    traced = set(site_class[k] for k in site_class)  # classes of lal; those with traced declarations appear in dyn
+    missed = sorted(k for k in dyn if k not in static)
+    dyn_classes = set(x for k in dyn for x in k)
+    comparable = set(e for e in static if e[0] in dyn_classes or e[1] in dyn_classes)
+    m = re.search(r"^lalrace: (.*)$", so, re.M)
+    cov["lock_trace"] = dict(seconds=round(time.time() - t0, 1), files_overlaid=nfiles, lock_sites_exercised=nsites,
+                             dynamic_edges=sorted("%s -> %s (x%d, %s then %s)" % (k[0], k[1], v[2], v[0], v[1]) for k, v in dyn.items()),
+                             dynamic_edges_missing_from_static_graph=len(missed),
+                             static_edges_between_traced_classes_exercised="%d of %d" % (len(set(dyn) & static), len([e for e in static if e[0] in dyn_classes and e[1] in dyn_classes])),
+                             unlock_by_other_goroutine=foreign, scenario=(m.group(1) if m else ""))
+    for k in missed[:5]:
+        a, b, n = dyn[k]
+        violation("translator", "a nested acquisition observed at run time is not an edge of the translator's graph: %s -> %s" % k,
+                  dict(broken="translator: missed edge", observed=dict(held=k[0], locked_at=a, then=k[1], at=b, times=n)), True)
+    for s in sorted(unknown_sites)[:5]:
+        violation("translator", "a Lock() executed at run time is not a lock site of the translator: %s" % s,
+                  dict(broken="translator: missed lock site", site=s), True)
+    if foreign:
+        violation("translator", "a mutex was unlocked by a goroutine that did not lock it (%d times): outside the lock machine's assumptions" % foreign,
+                  dict(broken="model assumption: release by owner", times=foreign), True)
 
 
 def race_soak(ctx, cov, violation, notes):
